@@ -29,7 +29,7 @@ RULE = ("cases = (objects of mixed types behind a logging one-shot iterator, con
         "prefix the reference filter needs. Non-trivial = some non-qualifying element precedes a qualifying one and a "
         "strict prefix was observed (a partial evaluation stopped before the last qualifying element); distinct = "
         "canonical JSON.")
-BUDGET = {"quick": (4, 400), "thorough": (16, 4000)}
+BUDGET = {"quick": (8, 400), "thorough": (16, 4000)}
 ASSUMPTIONS = ["the one-shot iterator is the domain of exactly one variable", "asking an exhausted iterator again is not an element pull"]
 
 
@@ -54,7 +54,7 @@ def _cfg():
     avoid = open_features()
     return Cfg(nvars=(1, 1), pool=(3, 8), dom=(2, 8), profile="falsy" if "falsy_values" not in avoid else "clean",
                max_depth=2, allow_nested_not="not_under_not" not in avoid, allow_empty_cond=True, noise=True,
-               select="first", desc=("entity",), dom_kinds=("list",))
+               select="first", desc=("entity",), dom_kinds=("list",), const_operands=(1, 5))
 
 
 @st.composite
